@@ -6,6 +6,7 @@ import (
 	"encoding/json"
 	"errors"
 	"fmt"
+	"sort"
 	"text/template"
 
 	"package-operator.run/internal/apis/manifests"
@@ -47,12 +48,17 @@ func RenderTemplates(_ context.Context, pkg *packagetypes.Package, tmplCtx packa
 		}
 	}
 
+	// Execute templates in a stable order:
+	// templates may read the output of other templates via getFile.
+	templatePaths := make([]string, 0, len(pkg.Files))
 	for path := range pkg.Files {
-		if !packagetypes.IsTemplateFile(path) {
-			// Not a template file, skip.
-			continue
+		if packagetypes.IsTemplateFile(path) {
+			templatePaths = append(templatePaths, path)
 		}
+	}
+	sort.Strings(templatePaths)
 
+	for _, path := range templatePaths {
 		var buf bytes.Buffer
 		if err := templ.ExecuteTemplate(&buf, path, tctx); err != nil {
 			return fmt.Errorf("executing template from %s with context %+v: %w", path, tctx, err)
